@@ -264,6 +264,7 @@ class RangesAssembler:
                 self.inputs[k] = _get_indices_intersection(base, ist)
                 f = functools.partial(format_output, ist),
                 dsp.add_data(k, [[sh.EMPTY]], filters=f)
+                dsp.nodes[k]['filler'] = True  # No cell of the workbook.
         else:
             if sh.SELF not in nodes:
                 dsp.add_data(sh.SELF, sh.inf(2, 0))
